@@ -8,7 +8,7 @@ import BiomModel.Lemmas.C04
 set_option linter.unusedSectionVars false
 
 namespace Biom.Hdf5
-open Biom Biom.C04
+open Biom Biom.C04 Biom.C01
 
 variable {α δ : Type}
 
@@ -227,5 +227,118 @@ def expected (t : Src α) (genBy : String) (d : δ) : Loaded α δ :=
     ogmd := gmdLoaded t.ogmd, sgmd := gmdLoaded t.sgmd }
 
 end reader
+
+/-! ### the clauses of `C01.holds` on the expected result -/
+section clauses
+variable [DecidableEq α]
+
+theorem lookup_of_mem_nodup' {β : Type} (l : List (String × β)) (h : (l.map (·.1)).Nodup)
+    (kr : String × β) (hm : kr ∈ l) : l.lookup kr.1 = some kr.2 := by
+  induction l with
+  | nil => cases hm
+  | cons x xs ih =>
+    simp only [List.map_cons, List.nodup_cons] at h
+    obtain ⟨xk, xv⟩ := x
+    rw [List.lookup_cons]
+    rcases List.mem_cons.mp hm with rfl | hm'
+    · simp
+    · have hne : (kr.1 == xk) = false := by
+        have : kr.1 ∈ xs.map (·.1) := List.mem_map_of_mem hm'
+        have : kr.1 ≠ xk := fun e => h.1 (e ▸ this)
+        simpa using this
+      rw [hne]; exact ih h.2 hm'
+
+theorem lookup_map_self {γ : Type} (g : String → γ) (keys : List String) (k : String) (hk : k ∈ keys) :
+    (keys.map (fun k => (k, g k))).lookup k = some (g k) := by
+  induction keys with
+  | nil => cases hk
+  | cons x xs ih =>
+    rw [List.map_cons, List.lookup_cons]
+    by_cases hx : k = x
+    · subst hx; simp
+    · have : (k == x) = false := by simpa using hx
+      rw [this]
+      rcases List.mem_cons.mp hk with h | h
+      · exact absurd h hx
+      · exact ih h
+
+/-- an entry and its read-back form have the same categories with the same values -/
+theorem entryEq_normEntry (keys : List String) (e : MdE α) (hnd : (keysOf e).Nodup)
+    (hsub : ∀ k ∈ keysOf e, k ∈ keys) (hlen : (keysOf e).length = keys.length) :
+    entryEq e (normEntry keys e) = true := by
+  unfold entryEq
+  simp only [Bool.and_eq_true, beq_iff_eq, List.all_eq_true]
+  constructor
+  · simp only [normEntry, List.length_map]
+    simpa [keysOf] using hlen
+  · intro kv hkv
+    have hk : kv.1 ∈ keys := hsub _ (List.mem_map_of_mem (f := (·.1)) hkv)
+    unfold normEntry
+    rw [lookup_map_self _ keys kv.1 hk, lookup_of_mem_nodup' e hnd kv hkv]
+    rfl
+
+theorem sameKeys_sub (e e0 : MdE α) (h : sameKeys e e0 = true) : ∀ k ∈ keysOf e, k ∈ keysOf e0 := by
+  simp only [sameKeys, Bool.and_eq_true, List.all_eq_true, List.contains_iff_mem] at h
+  exact h.1
+
+theorem lookupBy_map {β γ : Type} (f : β → γ) (ids : List Id) (l : List β) (id : Id) :
+    lookupBy ids (l.map f) id = (lookupBy ids l id).map f := by
+  induction ids generalizing l with
+  | nil => cases l <;> rfl
+  | cons i is ih =>
+    cases l with
+    | nil => rfl
+    | cons x xs =>
+      simp only [List.map_cons, lookupBy]
+      split
+      · rfl
+      · exact ih xs
+
+theorem lookupBy_mem {β : Type} (ids : List Id) (l : List β) (id : Id) (x : β)
+    (h : lookupBy ids l id = some x) : x ∈ l := by
+  induction ids generalizing l with
+  | nil => cases l <;> simp [lookupBy] at h
+  | cons i is ih =>
+    cases l with
+    | nil => simp [lookupBy] at h
+    | cons y ys =>
+      simp only [lookupBy] at h
+      split at h
+      · cases h; exact List.mem_cons_self
+      · exact List.mem_cons_of_mem _ (ih ys h)
+
+/-- metadata by ID: what is read back equals what was written, on every ID -/
+theorem mdClause_normMd (ids : List Id) (md : Option (List (MdE α))) (hdom : mdDomain md = true) :
+    mdClause ids md (normMd md) = true := by
+  unfold mdClause
+  rw [List.all_eq_true]
+  intro id _
+  match md with
+  | none => simp [normMd, entryOf, entryEq]
+  | some [] => simp [mdDomain] at hdom
+  | some (e0 :: es) =>
+    have hf := mdDomain_facts e0 es hdom
+    simp only [normMd, entryOf, Option.bind_some, lookupBy_map]
+    cases hl : lookupBy ids (e0 :: es) id with
+    | none => simp [entryEq]
+    | some e =>
+      simp only [Option.map_some, Option.getD_some]
+      rcases List.mem_cons.mp (lookupBy_mem _ _ _ _ hl) with rfl | he
+      · exact entryEq_normEntry _ _ hf.keysNodup (fun k hk => hk) rfl
+      · obtain ⟨h1, h2, h3⟩ := hf.rest e he
+        exact entryEq_normEntry _ _ h1 (sameKeys_sub e e0 h2) h3
+
+theorem gmdClause_loaded (g : List (String × String × String)) (hnd : (g.map (·.1)).Nodup) :
+    gmdClause g (gmdLoaded g) = true := by
+  unfold gmdClause gmdLoaded
+  simp only [List.length_map, beq_self_eq_true, Bool.true_and, List.all_eq_true, beq_iff_eq]
+  intro kv hkv
+  have hmem : (kv.1, some kv.2.2) ∈ g.map (fun kv => (kv.1, some kv.2.2)) := List.mem_map_of_mem hkv
+  have hnd' : ((g.map (fun kv => (kv.1, some kv.2.2))).map (·.1)).Nodup := by
+    rw [List.map_map]
+    exact hnd
+  exact lookup_of_mem_nodup' _ hnd' _ hmem
+
+end clauses
 
 end Biom.Hdf5
